@@ -360,6 +360,61 @@ def ob_transmit(ext):
     return merge(res)
 
 
+@obligation("transmit/post_filter_history", params=[{"ext": e} for e in (False, True)], timeout=300,
+            desc="history of set_post_filter on one object: filters W set and used, then ONE receiver's filter replaced inside the same "
+                 "container and the container handed over again, then a fresh container: each transmission is filtered with the filters "
+                 "most recently handed over (the W property and the filtering agree)")
+def ob_filter_history(ext):
+    def body(c, it):
+        draws = []
+        _install_models(c, it, draws)
+        o, g = _new(c, it, ext)
+        _apply(c, it, o, g, "randA", draws, ext, "0")
+        it.setattr(o, "noise_var", None)
+        cumr = np.hstack([0, np.cumsum(g.Nr)])
+        goals = []
+
+        def transmit(tag, W):
+            data = np.empty(2, dtype=object)
+            for k in range(2):
+                data[k] = _cmat(c, "x%s%d" % (tag, k), int(g.Nt[k]), 1)
+            if ext:
+                xe = np.empty(1, dtype=object)
+                xe[0] = _cmat(c, "xe" + tag, 1, 1)
+                out = it.call(it.getattr(o, "corrupt_data"), [data, xe])
+                xs = np.vstack(list(data) + list(xe))
+            else:
+                out = it.call(it.getattr(o, "corrupt_data"), [data])
+                xs = np.vstack(list(data))
+            y = np.dot(it.getattr(o, "big_H"), xs)
+            bw = np.zeros((int(cumr[-1]), 2), dtype=object)
+            for k in range(2):
+                bw[cumr[k]:cumr[k + 1], k:k + 1] = W[k]
+            y = np.dot(np.frompyfunc(lambda v: v.conjugate() if hasattr(v, "conjugate") else v, 1, 1)(bw).T, y)
+            ok = isinstance(out, np.ndarray) and out.shape == (2,) and all(np.shape(out[k]) == (1, 1) for k in range(2))
+            goals.append(Goal("[%s] output shapes" % tag, ok))
+            if ok:
+                goals.append(Goal("[%s] filtered with the filters handed over last" % tag,
+                                  sym.SBool(z3.And([_ceq(out[k][0, 0], y[k, 0]) for k in range(2)]))))
+            Wp = it.getattr(o, "W")
+            goals.append(Goal("[%s] W property returns those filters" % tag, Wp is not None and all(Wp[k] is W[k] for k in range(2))))
+        W = np.empty(2, dtype=object)
+        for k in range(2):
+            W[k] = _cmat(c, "W%d" % k, int(g.Nr[k]), 1)
+        it.call(it.getattr(o, "set_post_filter"), [W])
+        transmit("first", W)
+        W[1] = _cmat(c, "V1", int(g.Nr[1]), 1)             # replaced inside the same container
+        it.call(it.getattr(o, "set_post_filter"), [W])
+        transmit("same container, one filter replaced", W)
+        W2 = np.empty(2, dtype=object)
+        for k in range(2):
+            W2[k] = _cmat(c, "U%d" % k, int(g.Nr[k]), 1)
+        it.call(it.getattr(o, "set_post_filter"), [W2])
+        transmit("fresh container", W2)
+        return goals
+    return verify(body, check_side=False, timeout_ms=60000)
+
+
 # ------------------------------------------------------------------ bounded native
 @obligation("native/random_histories", kind="bounded", timeout=900,
             desc="native complex128: random 8-step interleavings of randomize / init_from_channel_matrix / set_pathloss(M|None) / "
